@@ -517,6 +517,7 @@ class RunStorage(ExecKernel):
         ctx.store[(gf.oid, "pup_at_advance")] = z3.BoolVal(False)
         ctx.store[(gf.oid, "loaded_since_advance")] = z3.BoolVal(False)
         ctx.store[(gf.oid, "fail_phase")] = z3.IntVal(0)  # 1 validate, 2 start, 3 later
+        ctx.store[(gf.oid, "stop_threw")] = z3.BoolVal(False)
         self.view = GraphViewFacade(name="graph_view")
         gv = GraphFacade(name="graph_value")
         ctx.store[(st.oid, "graph")] = gv
@@ -564,6 +565,7 @@ class RunStorage(ExecKernel):
         self.gfset(I, "stop_storage_calls", self.gfget(ctx, "stop_storage_calls") + 1)
         self.gfset(I, "started", z3.BoolVal(False))
         if ctx.choose(2, "stop_storage outcome") == 1:
+            self.gfset(I, "stop_threw", z3.BoolVal(True))
             I.throw_from_callee("stop_storage")
         return VOID
 
@@ -681,6 +683,8 @@ class RunStorage(ExecKernel):
                    z3.And(self.gfget(ctx, "stop_storage_calls") == 1, z3.Not(self.gfget(ctx, "started")),
                           self.gfget(ctx, "start_calls") == 1), kind="post-normal")
         ctx.oblige("ensures.window-was-valid", self.start < self.end, kind="post-normal")
+        ctx.oblige("ensures.a-stop-failure-at-the-end-of-a-clean-run-reaches-the-caller[C14 the original error reaches the caller]",
+                   z3.Not(self.gfget(ctx, "stop_threw")), kind="post-normal")
 
     def post_exc(self, I, exc):
         ctx = I.ctx
